@@ -324,7 +324,21 @@ func ruleGoidGate(c *Ctx, rule string) {
 	}
 	lit, _ := goStmt.Call.Fun.(*ast.FuncLit)
 	newOK, storeOK, delOK, evalInside := false, false, false, false
+	var recObj types.Object
+	recvIs := func(call *ast.CallExpr, o types.Object) bool {
+		sel, ok := unparen(call.Fun).(*ast.SelectorExpr)
+		return ok && identOf(sel.X) != nil && o != nil && info.Uses[identOf(sel.X)] == o
+	}
 	if lit != nil {
+		// the record created in the goroutine
+		ast.Inspect(lit.Body, func(n ast.Node) bool {
+			if as, ok := n.(*ast.AssignStmt); ok && len(as.Lhs) == 1 && len(as.Rhs) == 1 && identOf(as.Lhs[0]) != nil {
+				if call, ok := unparen(as.Rhs[0]).(*ast.CallExpr); ok && funcFullName(calleeOf(info, call)) == "fast.Run.new" {
+					recObj = info.Defs[identOf(as.Lhs[0])]
+				}
+			}
+			return true
+		})
 		ast.Inspect(lit.Body, func(n ast.Node) bool {
 			switch x := n.(type) {
 			case *ast.CallExpr:
@@ -336,7 +350,7 @@ func ruleGoidGate(c *Ctx, rule string) {
 						}
 					}
 				case "fast.Run.glsStore":
-					storeOK = true
+					storeOK = recvIs(x, recObj)
 				}
 				// operand closures (func(*Env) ...) must not be called inside the goroutine
 				if id := identOf(x.Fun); id != nil {
@@ -346,13 +360,24 @@ func ruleGoidGate(c *Ctx, rule string) {
 				}
 			case *ast.DeferStmt:
 				if funcFullName(calleeOf(info, x.Call)) == "fast.Run.glsDel" {
-					delOK = true
+					delOK = recvIs(x.Call, recObj)
 				}
 			}
 			return true
 		})
+		// the frame the call runs on is tagged with that record
+		tagged := false
+		ast.Inspect(lit.Body, func(n ast.Node) bool {
+			if as, ok := n.(*ast.AssignStmt); ok && len(as.Lhs) == 1 && len(as.Rhs) == 1 {
+				if _, ok := fieldSel(info, as.Lhs[0], "Run"); ok && identOf(as.Rhs[0]) != nil && info.Uses[identOf(as.Rhs[0])] == recObj && recObj != nil {
+					tagged = true
+				}
+			}
+			return true
+		})
+		newOK = newOK && tagged
 	}
-	c.Ob(rule, "fast.Comp.Go/record", goStmt, newOK && storeOK && delOK, "the new goroutine creates its record with its own gls.GoID(), registers it, and unregisters it with defer")
+	c.Ob(rule, "fast.Comp.Go/record", goStmt, newOK && storeOK && delOK, "the new goroutine creates its record with its own gls.GoID(), tags its frame with it, registers that same record, and unregisters it with defer")
 	c.Ob(rule, "fast.Comp.Go/eager-operands", goStmt, lit != nil && !evalInside, "the function value and the arguments are evaluated in the caller's goroutine, before the go statement")
 }
 
@@ -943,6 +968,13 @@ func ruleInterruptPolling(c *Ctx, rule string) {
 			}
 			// dispatches directly in this loop (excluding nested loops, which are judged on their own)
 			disp, polls := 0, 0
+			// loops that continue only while the statement just executed installed a deferred call are
+			// bounded by the program text, not by the data: they need no poll of their own
+			if fs.Cond != nil {
+				if b, ok := unparen(fs.Cond).(*ast.BinaryExpr); ok && b.Op == token.EQL && objQName(usedObj(info, b.Y)) == "base.SigDefer" {
+					return true
+				}
+			}
 			var walk func(m ast.Node)
 			walk = func(m ast.Node) {
 				ast.Inspect(m, func(k ast.Node) bool {
@@ -966,10 +998,8 @@ func ruleInterruptPolling(c *Ctx, rule string) {
 							polls++
 						}
 					case *ast.SelectorExpr:
-						if _, ok := fieldSel(info, x, "Sync"); ok {
-							polls++
-						}
-						if _, ok := fieldSel(info, x, "Debug"); ok {
+						// only a read of the asynchronous signal (or IsEmpty, which loads all signals) sees an interrupt
+						if _, ok := fieldSel(info, x, "Async"); ok {
 							polls++
 						}
 					}
@@ -987,7 +1017,7 @@ func ruleInterruptPolling(c *Ctx, rule string) {
 			if disp > maxBurst {
 				maxBurst = disp
 			}
-			c.Ob(rule, fmt.Sprintf("%s/loop%d", fk, nl), fs, polls > 0 && disp <= 64, fmt.Sprintf("a dispatch loop runs %d statements per iteration and reads run.Signals %d time(s) per iteration (bounded burst between two polls)", disp, polls))
+			c.Ob(rule, fmt.Sprintf("%s/loop%d", fk, nl), fs, polls > 0 && disp <= 64, fmt.Sprintf("a dispatch loop runs %d statements per iteration and polls the asynchronous signal (Signals.IsEmpty or .Async) %d time(s) per iteration (bounded burst between two polls)", disp, polls))
 			return true
 		})
 		if nl == 0 {
@@ -1034,6 +1064,27 @@ func ruleInterruptPolling(c *Ctx, rule string) {
 		c.Ob(rule, fk+"/spin-interrupt", fd, okSpin, "before the unbounded dispatch loop run.Interrupt is set to spinInterrupt, so statements that hand control to the interrupt trampoline come back to the poll")
 	}
 	c.Extra("max_statements_between_polls", maxBurst)
+	// Signals.IsEmpty loads every signal at once
+	if bpk := c.P.Pkg("base"); bpk != nil {
+		ie := c.P.Func("base.Signals.IsEmpty")
+		okIE := false
+		if tn, ok := bpk.Types.Scope().Lookup("Signals").(*types.TypeName); ok && ie != nil {
+			if st, ok := tn.Type().Underlying().(*types.Struct); ok && st.NumFields() <= 4 {
+				small := true
+				for i := 0; i < st.NumFields(); i++ {
+					if b, ok := st.Field(i).Type().Underlying().(*types.Basic); !ok || (b.Kind() != types.Uint8 && b.Kind() != types.Int8) {
+						small = false
+					}
+				}
+				inspectCalls(ie.Body, func(call *ast.CallExpr) {
+					if funcFullName(calleeOf(bpk.TypesInfo, call)) == "sync/atomic.LoadUint32" && small {
+						okIE = true
+					}
+				})
+			}
+		}
+		c.Ob(rule, "base.Signals.IsEmpty", ie, okIE, "IsEmpty atomically loads the whole 4-byte Signals struct, so it observes the asynchronous signal too")
+	}
 	// Interp.Interrupt -> Run.interrupt -> Signals.Async
 	ii, ri := c.P.Func("fast.Interp.Interrupt"), c.P.Func("fast.Run.interrupt")
 	okI, okR, okOpt := false, false, false
